@@ -283,18 +283,18 @@ func properties() map[string]*propDef {
 				}
 			}
 			if tier == "quick" {
-				add(0, 0, 8, 4)
-				add(1, 0, 8, 4)
-				add(2, 0, 8, 4)
+				add(0, 0, 8, 9)
+				add(1, 0, 8, 18)
+				add(2, 0, 8, 18)
 				add(4, 2, 3, 2)
 				add(1, 3, 1, 1)
 			} else {
 				add(1, 3, 3, 1)
 				add(2, 3, 3, 1)
-				add(0, 0, 9, 5)
-				add(1, 0, 13, 14)
-				add(2, 0, 11, 12)
-				add(1, 1, 10, 11)
+				add(0, 0, 9, 20)
+				add(1, 0, 13, 28)
+				add(2, 0, 11, 24)
+				add(1, 1, 10, 22)
 				add(3, 2, 5, 6)
 				add(4, 2, 5, 6)
 			}
